@@ -82,7 +82,9 @@ def binding_names(elements):
 def real_route(elements, trailing, mode, rebound=False):
     from clastic import Application, Route
     names = binding_names(elements)
-    ep = eval('lambda %s: None' % ', '.join(names))
+    # the endpoint declares its own (non-None) default for every binding: what a route hands over for an absent optional
+    # binding is None / [] all the same - the URL converter's business, not the endpoint signature's
+    ep = eval('lambda %s: None' % ', '.join('%s=%r' % (n, 'EPDEFAULT:' + n) for n in names))
     patt = pattern_text(elements, trailing)
     if rebound:
         # the route was first bound in an application with ANOTHER slash mode, which is then embedded at the root
